@@ -195,7 +195,7 @@ def check_statement(case, chunks, own, heads, c_len):
 # ---------------------------------------------------------------- generator
 def gen_def(rng, dt):
     w = dt_bits(dt)
-    mult = 256 // w
+    mult = 32 if w == 24 else 256 // w      # samples_per_data_multiple of jls_core_signal_def_align
     sdf = ((10 + mult - 1) // mult) * mult * rng.choice([1, 1, 1, 2])
     epd = rng.choice([1, 1, 2, 2, 3, 5])
     sumdf = rng.choice([10, 10, 10, 11, 12, 15])
@@ -341,8 +341,12 @@ def run_pyr(ctx, build=True):
     mlines = [model_line(c) for c in cases]
     impl = vlib.run_c("plain", "prog", scripts, args=[scratch, "timeout=60"], timeout=3000)
     model = vlib.run_model("pyr", mlines, timeout=3000)
+    redo = [i for i, m in enumerate(model) if m.startswith("PROCFAIL")]
+    if redo:        # a shard died: rerun its lines one process each
+        for i, m in zip(redo, vlib.run_model("pyr", [mlines[i] for i in redo], shards=len(redo), timeout=3000)):
+            model[i] = m
     stats = {"by_dtype": {}, "by_mode": {}, "levels": {}, "viol": {}, "with_other_signal": 0, "omitted_blocks": 0, "blocks": 0,
-             "tail_classes": {}, "known_omit_partial": 0, "reads": 0}
+             "tail_classes": {}, "known_omit_partial": 0, "reads": 0, "def_adjusted": 0}
     nviol = 0
 
     def viol(kind, case, path, script, mline, detail, sig=None):
@@ -380,7 +384,17 @@ def run_pyr(ctx, build=True):
             viol("impl_fault", case, path, script, mline, "implementation run failed: %s" % a[-300:])
             continue
         ao = a.split(";")
-        # the definition as stored must be the one generated (sp_align leaves it unchanged)
+        # the definition as stored must be the one generated (jls_core_signal_def_align leaves it unchanged);
+        # if the normalisation rules of the implementation change, the case is skipped and counted
+        stored = None
+        for o in ao:
+            t = o.split()
+            if t and t[0] == "sigq" and len(t) >= 4 and t[1] == "0":
+                f = t[3].split(",")
+                stored = tuple(int(v) for v in f[5:9])
+        if stored != tuple(case["d"]):
+            stats["def_adjusted"] += 1
+            continue
         chunks = parse_file(path)
         own, heads = fsr_chunks(chunks, 1)
         got = render(own, heads)
@@ -440,11 +454,17 @@ def run_pyr(ctx, build=True):
             os.unlink(path)
         except OSError:
             pass
+    if stats["def_adjusted"] * 10 > len(cases):
+        ctx.violation("pyr_generator_stale.txt", "%d of %d generated definitions were adjusted by jls_core_signal_def_align: the generator of "
+                      "tools/props/C01_pyr.py (gen_def) no longer produces normalised definitions\n" % (stats["def_adjusted"], len(cases)),
+                      "pyr: generated definitions are no longer left unchanged by the writer")
+        nviol += 1
     d = ctx.extra.setdefault("distribution", {})
     d["pyr"] = {"cases": len(cases), "by_dtype": stats["by_dtype"], "by_omission_mode": stats["by_mode"], "top_level_reached": stats["levels"],
                 "tail_classes": stats["tail_classes"], "with_second_signal_interleaved": stats["with_other_signal"], "blocks": stats["blocks"],
                 "omitted_blocks": stats["omitted_blocks"], "reads": stats["reads"],
                 "known class (requested omission, last block not a whole number of entries)": stats["known_omit_partial"],
+                "definitions adjusted by the writer (case skipped)": stats["def_adjusted"],
                 "violations_by_kind": stats["viol"]}
     rule = ("pyr: case = (data type, consistent definition (spd, sdf, eps, sumdf) that jls_core_signal_def_align leaves unchanged, first sample id, number of full "
             "blocks chosen at / around 1, cap1, cap1*sumdf, cap1*sumdf^2 (index capacities) or random, tail in {none, 1, sdf-1, sdf, sdf+1, spd-1, k*sdf, random}, "
